@@ -130,7 +130,7 @@ def run(ctx):
         s.add(P2[1] == 0, P2[5 - cat] == 0, P2[cat] >= 1, P2[cat] <= 3, P2[0] >= 0, P2[0] <= 300000)
         s.add(z3.BitVecVal(100000, W2) * P2[cat] > P2[0] + P2[cat], shown == 0)
         queries.append((f"tiny-share:{'hard' if cat == 2 else 'unmaintainable'}", smt.to_smt2(s, "QF_BVFP"), [f"p{i}" for i in range(4)]))
-    TL = 250.0 if ctx.quick() else 2400.0
+    TL = 250.0 if ctx.quick() else 900.0
     res = smt.solve_all(queries, TL, ctx.nproc)
     for name, _, _ in queries:
         r = res[name]
